@@ -198,10 +198,17 @@ class IterAnalysis:
                 print("    =", repr(c).replace("('H', 'arg', 1), ", "self.")[:260])
         self.note("ALLOC_BOUNDED", fn, "%s sized by stream data is bounded by the limit / capacity" % what.split("::")[-1], call.span, ok, st, call.frame)
 
-    def on_aggregate(self, st, frame, rv, span):
+    def on_aggregate(self, st, frame, rv, span, place=None):
         if rv.get("agg") != "adt":
             return
         path = strip_generics(rv["path"])
+        if path == "std::option::Option" and rv.get("variant") == "None" and frame.body.path == ITER + "::read_tag_checked" and place is not None \
+                and place["local"] == 0 and not place["proj"]:
+            # normal termination: only when the source is exhausted AND no unparsed byte is left in the buffer
+            pos = LinForm.var((self.self_loc(st), (self.ix["internal_buffer_position"],)))
+            filled = LinForm.var((self.self_loc(st), (self.ix["buffered_byte_length"],)))
+            ok = (st.ghost.get("eof_seen") == 1 or any(x[0] == "eof" for x in st.tag)) and st.entails_le(filled - pos)
+            self.note("CLEAN_EOF", frame.body.path, "end of iteration is reported only when the source is exhausted and every buffered byte was parsed", span, ok, st, frame)
         if path == "errors::tag_iterator::TagIteratorError" and rv["variant"] == "UnexpectedEOF":
             ok = st.ghost.get("eof_seen") == 1 or any(x[0] == "eof" for x in st.tag)
             if frame.body.name == "buffer_master":
@@ -214,7 +221,21 @@ class IterAnalysis:
         if path == "errors::tag_iterator::CorruptedFileError":
             self.err_kinds.add(rv["variant"])
 
+    IOERR_FNS = ("private_read", "ensure_data_read", "peek_tag_id", "peek_valid_tag_header", "read_valid_tag_header", "read_tag_data", "read_tag", "read_tag_checked")
+
+    def on_call(self, call):
+        # a failed read travels to the caller as the queued item
+        if call.name == "std::collections::VecDeque::push_back" and call.frame.body.path == ITER + "::read_next" and any(x[0] == "rderr" for x in call.st.tag):
+            v, _ = call.arg(1)
+            sh = _shape(v, self.eng)
+            self.note("IOERR", call.frame.body.path, "a failed read of the source is queued as ReadError", call.span, sh <= {"Err/ReadError"}, call.st, call.frame)
+
     def on_return(self, frame, st):
+        if any(x[0] == "rderr" for x in st.tag) and frame.body.kind != "closure" and frame.body.path.startswith(ITER + "::") and frame.body.name in self.IOERR_FNS:
+            v = st.cells.get(frame.cell(0))
+            sh = _shape(v, self.eng) if isinstance(v, Enum) else {"?"}
+            ok = sh <= {"Err/ReadError", "Some/Err/ReadError"}
+            self.note("IOERR", frame.body.path, "a failed read of the source surfaces as ReadError", frame.body.span, ok, st, frame)
         if self.eng.opt.get("eof_partition") and frame.body.path.startswith(ITER + "::") and frame.body.kind != "closure" and frame.body.name != "buffer_master":
             v = st.cells.get(frame.cell(0))
             if isinstance(v, Enum):
@@ -275,12 +296,14 @@ class IterAnalysis:
             post_assume={ITER + "::current_offset": _pa_offset},
             summaries={ITER + "::read_next": self.summary_read_next},
             eof_partition=(body.name != "try_recover"),
+            rderr_partition=(body.name == "next"),
         )
         self.eng = eng
         eng.on("index", self.on_index)
         eng.on("alloc", self.on_alloc)
         eng.on("aggregate", self.on_aggregate)
         eng.on("return", self.on_return)
+        eng.on("call", self.on_call)
         self.self_ty = body.locals[1]["ty"]["to"] if body.locals[1]["ty"].get("k") == "ref" else None
         ix = self.ix
 
@@ -771,6 +794,9 @@ def r_eof_genuine(ctx):
         n += _extra(results[key], rep, "EOF_GENUINE", "EOF-GENUINE", 1)
         sites += sum(1 for e in results[key]["extra"] if e["kind"] in ("EOF_SITE", "EOF_INHERITED"))
     rep.instance("UnexpectedEOF construction sites seen: %d" % sites)
+    nc = _extra(results[(NEXT_KEY, None)], rep, "CLEAN_EOF", "CLEAN-EOF", 1)
+    if nc < 1:
+        raise AnchorLost("R-EOF-GENUINE: the normal-termination exit of read_tag_checked was not observed")
     # try_recover's own end-of-file error: constructed only on the false edge of ensure_data_read(1)'s result
     tr = find_one(ctx.prog, "TagIterator::try_recover")
     ok = False
@@ -790,6 +816,30 @@ def r_eof_genuine(ctx):
     rep.oblige(ok, "EOF-GENUINE|try_recover|guard", tr.span, "try_recover raises UnexpectedEOF on a path not selected by ensure_data_read(..) returning false")
     if n < 4 or sites < 4:
         raise AnchorLost("R-EOF-GENUINE: only %d returning functions / %d construction sites of UnexpectedEOF seen" % (n, sites))
+    return rep
+
+
+def r_ioerr(ctx):
+    rep = RuleReport("R-IOERR", "on every path on which R::read returned an error during next(), each function on the way up returns ReadError "
+                     "(wrapped in Some for read_tag_checked) and read_next queues exactly that error: a source failure is never turned into end of "
+                     "input or into another error")
+    results = run_analyses(ctx, ENTRY_JOBS)
+    n = _extra(results[(NEXT_KEY, None)], rep, "IOERR", "IOERR", 1)
+    fns = {e["fn"].split("::")[-1] for e in results[(NEXT_KEY, None)]["extra"] if e["kind"] == "IOERR"}
+    need = {"private_read", "ensure_data_read", "read_tag_checked", "read_next"}
+    if not need <= fns:
+        raise AnchorLost("R-IOERR: the failing-read path was not observed in %s" % sorted(need - fns))
+    # the error value itself is carried: ReadError { source } is built from the io::Error by map_err in private_read
+    pr = find_one(ctx.prog, "TagIterator::private_read")
+    clos = ctx.prog.closures_of(pr.path)
+    ok = False
+    for cb in clos:
+        for b, i, st in cb.statements():
+            if st["k"] == "assign" and st["rv"].get("agg") == "adt" and st["rv"].get("variant") == "ReadError":
+                op = st["rv"]["ops"][0]
+                ok = op.get("k") in ("copy", "move") and 1 <= op["place"]["local"] <= cb.arg_count + 1
+    rep.instance("private_read: ReadError { source } built from the closure argument: %s" % ok)
+    rep.oblige(ok, "IOERR|private_read|source-carried", pr.span, "the ReadError built in private_read does not carry the io::Error it was given")
     return rep
 
 
